@@ -1,7 +1,7 @@
 (* Properties_C15.v — C15: proximal / projection operators return the true minimiser.
    Only theorem statements closed by `exact`, each followed by Print Assumptions. *)
 From Coq Require Import Reals List ZArith Lra.
-From Alpaqa Require Import Num NumR Vec Prox ProxProofs ProxVec.
+From Alpaqa Require Import Num NumR Vec Prox ProxProofs ProxVec ProxGenLib ProxGen ProxGenEq.
 Import ListNotations.
 Local Open Scope R_scope.
 
@@ -129,6 +129,140 @@ Print Assumptions C15_box_l1_returned_h_value.
 Theorem C15_separable_sum_minimal : forall f g : list R, Forall2 Rle f g -> rsum f <= rsum g.
 Proof. exact vector_argmin. Qed.
 Print Assumptions C15_separable_sum_minimal.
+
+(* (9) tie to the source: the definitions GENERATED from box.hpp / box-constr-problem.hpp / l1-norm.hpp on every run
+   (coq/gen/ProxGen.v, translate/gen_prox.py) equal the model above, so every theorem of this file transfers to them;
+   the main ones are restated for the generated terms.  A change of the C++ expressions breaks these obligations. *)
+Theorem C15_gen_kernels_equal_model : forall lb ub λ γ M x g v y,
+  g_proj1 lb ub v = proj1 lb ub v /\ g_projdiff1 lb ub v = projdiff1 lb ub v /\
+  g_proj_step1 lb ub γ x g = proj_step1 lb ub γ x g /\
+  g_prox_step_l1_1 lb ub λ γ x g = box_l1_step1 lb ub λ γ x g /\
+  g_l1_prox1 λ γ v = l1_prox1 λ γ v /\ g_l1_prox_w1 λ γ v = l1_prox1 λ γ v /\
+  g_proj_multiplier1 lb ub M y = proj_mult1 lb ub M y /\
+  g_inactive1 lb ub λ γ x g = inactive1 lb ub λ γ x g /\
+  g_inactive_box1 lb ub γ x g = in_interior lb ub (x - γ * g) /\
+  g_box_prox1 lb ub v = proj1 lb ub v /\ g_box_prox_step1 lb ub γ x g = box_prox_step1 lb ub γ x g.
+Proof.
+  exact (fun lb ub λ γ M x g v y =>
+    conj (g_proj1_eq lb ub v) (conj (g_projdiff1_eq lb ub v) (conj (g_proj_step1_eq lb ub γ x g)
+    (conj (g_prox_step_l1_1_eq lb ub λ γ x g) (conj (g_l1_prox1_eq λ γ v) (conj (g_l1_prox_w1_eq λ γ v)
+    (conj (g_proj_multiplier1_eq lb ub M y) (conj (g_inactive1_eq lb ub λ γ x g) (conj (g_inactive_box1_eq lb ub γ x g)
+    (conj (g_box_prox1_eq lb ub v) (g_box_prox_step1_eq lb ub γ x g))))))))))).
+Qed.
+Print Assumptions C15_gen_kernels_equal_model.
+
+Theorem C15_gen_l1c_equals_model : forall λ γ z, g_l1c_prox1 λ γ z = l1c_prox1 λ γ z.
+Proof. exact g_l1c_prox1_eq. Qed.
+Print Assumptions C15_gen_l1c_equals_model.
+
+Theorem C15_gen_eval_prox_grad_step_equals_model : forall lb ub l1 γ x g,
+  g_eval_prox_grad_step lb ub l1 γ x g = eval_prox_grad_step lb ub l1 γ x g.
+Proof. exact g_eval_prox_grad_step_eq. Qed.
+Print Assumptions C15_gen_eval_prox_grad_step_equals_model.
+
+Theorem C15_gen_inactive_indices_equals_model : forall lb ub l1 γ x g,
+  g_inactive_indices lb ub l1 γ x g = inactive_indices lb ub l1 γ x g.
+Proof. exact g_inactive_indices_eq. Qed.
+Print Assumptions C15_gen_inactive_indices_equals_model.
+
+Theorem C15_gen_proj_multipliers_equals_model : forall k lb ub M y,
+  length lb = length y -> length ub = length y -> (k <= length y)%nat ->
+  g_proj_multipliers k lb ub M y = proj_multipliers k lb ub M y.
+Proof. exact g_proj_multipliers_eq. Qed.
+Print Assumptions C15_gen_proj_multipliers_equals_model.
+
+Theorem C15_gen_projdiff_equals_model : forall lb ub z,
+  g_proj lb ub z = proj lb ub z /\ g_projdiff lb ub z = projdiff lb ub z /\ g_proj_diff_g lb ub z = projdiff lb ub z /\
+  g_dist_squared lb ub z = vsqnorm (projdiff lb ub z).
+Proof.
+  exact (fun lb ub z => conj (g_proj_eq lb ub z) (conj (g_projdiff_eq lb ub z) (conj (g_proj_diff_g_eq lb ub z) (g_dist_squared_eq lb ub z)))).
+Qed.
+Print Assumptions C15_gen_projdiff_equals_model.
+
+Theorem C15_gen_l1_prox_equals_model : forall λ λv γ v,
+  g_l1_prox_scal λ γ v = l1_prox_scal λ γ v /\ g_l1_prox_vec λv γ v = l1_prox_vec λv γ v.
+Proof. exact (fun λ λv γ v => conj (g_l1_prox_scal_eq λ γ v) (g_l1_prox_vec_eq λv γ v)). Qed.
+Print Assumptions C15_gen_l1_prox_equals_model.
+
+(* projection (generated term) is feasible and the unique minimiser *)
+Theorem C15_gen_proj_feasible : forall lb ub v, box_ne lb ub -> in_box lb ub (g_proj1 lb ub v).
+Proof. exact g_proj1_in_box. Qed.
+Print Assumptions C15_gen_proj_feasible.
+
+Theorem C15_gen_proj_is_argmin : forall lb ub v u, box_ne lb ub -> in_box lb ub u ->
+  (g_proj1 lb ub v - v)² + (u - g_proj1 lb ub v)² <= (u - v)².
+Proof. exact g_proj1_strong_argmin. Qed.
+Print Assumptions C15_gen_proj_is_argmin.
+
+Theorem C15_gen_proj_step_is_out_minus_in : forall lb ub γ x g,
+  x + g_proj_step1 lb ub γ x g = g_proj1 lb ub (x - γ * g).
+Proof. exact g_proj_step1_is_proj. Qed.
+Print Assumptions C15_gen_proj_step_is_out_minus_in.
+
+(* prox of box + l1 (generated step): lands in the box on the unique minimiser; the returned value is h(x̂) *)
+Theorem C15_gen_box_l1_step_is_argmin : forall lb ub λ γ x g u,
+  0 <= λ -> 0 < γ -> lb_ok lb 0 -> ub_ok ub 0 -> in_box lb ub u ->
+  let o := x + g_prox_step_l1_1 lb ub λ γ x g in
+  in_box lb ub o /\ obj_l1 λ γ (x - γ * g) o + (u - o)² / (2 * γ) <= obj_l1 λ γ (x - γ * g) u.
+Proof. exact g_prox_step_l1_1_is_argmin. Qed.
+Print Assumptions C15_gen_box_l1_step_is_argmin.
+
+Theorem C15_gen_box_l1_returned_h_value : forall lb ub λ γ x g,
+  let res := g_prox_grad_step_l1 lb ub λ γ x g in
+  snd res = rsum (map2 (fun a l => Rabs (a * l)) (fst (fst res)) λ).
+Proof. exact g_prox_grad_step_l1_h. Qed.
+Print Assumptions C15_gen_box_l1_returned_h_value.
+
+Theorem C15_gen_box_l1_grad_step_componentwise : forall lb ub λ γ x g n,
+  length lb = n -> length ub = n -> length λ = n -> length x = n -> length g = n -> 0 < γ ->
+  forall i, (i < n)%nat -> 0 <= nth i λ 0 -> lb_ok (nth i lb None) 0 -> ub_ok (nth i ub None) 0 ->
+  let res := g_prox_grad_step_l1 lb ub λ γ x g in
+  nth i (fst (fst res)) 0 =
+    g_proj1 (nth i lb None) (nth i ub None) (g_l1_prox1 (nth i λ 0) γ (nth i x 0 - γ * nth i g 0)) /\
+  nth i (snd (fst res)) 0 = nth i (fst (fst res)) 0 - nth i x 0.
+Proof. exact g_prox_grad_step_l1_nth. Qed.
+Print Assumptions C15_gen_box_l1_grad_step_componentwise.
+
+Theorem C15_gen_l1_prox_is_argmin : forall λ γ v u, 0 <= λ -> 0 < γ ->
+  obj_l1 λ γ v (g_l1_prox1 λ γ v) + (u - g_l1_prox1 λ γ v)² / (2 * γ) <= obj_l1 λ γ v u.
+Proof. exact g_l1_prox1_strong_argmin. Qed.
+Print Assumptions C15_gen_l1_prox_is_argmin.
+
+(* multiplier projection (generated): bounds and signs; blocks of the vector *)
+Theorem C15_gen_proj_multiplier_spec : forall lb ub M y, 0 <= M ->
+  let o := g_proj_multiplier1 lb ub M y in
+  - M <= o <= M /\ (lb = None -> 0 <= o) /\ (ub = None -> o <= 0) /\
+  (forall l u, lb = Some l -> ub = Some u -> o = Rmax (- M) (Rmin y M)) /\
+  ((lb = None -> 0 <= y) -> (ub = None -> y <= 0) -> - M <= y <= M -> o = y).
+Proof. exact g_proj_multiplier1_spec. Qed.
+Print Assumptions C15_gen_proj_multiplier_spec.
+
+Theorem C15_gen_proj_multipliers_vector : forall k lb ub M y,
+  0 <= M -> length lb = length y -> length ub = length y -> (k <= length y)%nat ->
+  let o := g_proj_multipliers k lb ub M y in
+  length o = length y /\
+  forall i, (i < length y)%nat ->
+    ((i < k)%nat -> nth i o 0 = 0) /\
+    ((k <= i)%nat -> nth i o 0 = g_proj_multiplier1 (nth i lb None) (nth i ub None) M (nth i y 0)).
+Proof. exact g_proj_multipliers_spec. Qed.
+Print Assumptions C15_gen_proj_multipliers_vector.
+
+(* inactive-index rule (generated): reported <=> the generated forward-backward map is locally the identity shift *)
+Theorem C15_gen_inactive_implies_local_shift : forall lb ub λ γ x g,
+  0 <= λ -> 0 < γ -> lb_ok lb 0 -> ub_ok ub 0 ->
+  g_inactive1 lb ub λ γ x g = true ->
+  exists ε, 0 < ε /\ forall δ, Rabs δ < ε ->
+     g_fb1 lb ub λ γ (x - γ * g + δ) = g_fb1 lb ub λ γ (x - γ * g) + δ.
+Proof. exact g_inactive1_locally_shift. Qed.
+Print Assumptions C15_gen_inactive_implies_local_shift.
+
+Theorem C15_gen_not_inactive_implies_not_local_shift : forall lb ub λ γ x g,
+  0 <= λ -> 0 < γ -> lb_ok lb 0 -> ub_ok ub 0 ->
+  g_inactive1 lb ub λ γ x g = false ->
+  forall ε, 0 < ε -> exists δ, Rabs δ < ε /\
+     g_fb1 lb ub λ γ (x - γ * g + δ) <> g_fb1 lb ub λ γ (x - γ * g) + δ.
+Proof. exact g_not_inactive1_not_shift. Qed.
+Print Assumptions C15_gen_not_inactive_implies_not_local_shift.
 
 (* non-vacuity: the hypotheses are met by concrete data, and the operators do something there *)
 Example C15_nonvacuous :
